@@ -184,10 +184,18 @@ tx_outs:\n{tx_outs}
         if marker == b"\x00\x01":
             try:
                 return cls.parse_segwit(s, network=network)
-            except Exception:
+            except Exception as segwit_error:
                 # a legacy transaction without inputs and with one output
-                # starts with the same bytes
+                # starts with the same bytes: accept that reading only if it
+                # accounts for exactly the rest of the stream
                 s.seek(start)
+                tx_obj = cls.parse_legacy(s, network=network)
+                end = s.tell()
+                s.seek(start)
+                if tx_obj.serialize_legacy() != s.read():
+                    raise segwit_error
+                s.seek(end)
+                return tx_obj
         return cls.parse_legacy(s, network=network)
 
     @classmethod
